@@ -129,11 +129,33 @@ impl Scenario for C01 {
             let at = 1_000 * (60 + cs.choose("c01_server_close_at_us", 15_000) as u64);
             gen.broker.script.push((crate::broker::Trigger::AtTime(at), crate::broker::Action::CloseConnection { code: 320, text: "CONNECTION_FORCED-c01".into() }));
         }
-        let (res, world) = run_generated(&gen, cs, text, |_| {});
+        // a sixth of the remaining sessions negotiate a 1 s heartbeat and meet a transport that accepts a few
+        // bytes per write and then nothing at all for longer than the interval (the server keeps sending
+        // heartbeats): whatever the heartbeat timers do to a half-written buffer, the stream stays whole frames
+        let hb_stall = !server_close && cs.choose("c01_heartbeat_stall", 6) == 0;
+        let mut stall = None;
+        if hb_stall {
+            gen.plan.opts.heartbeat = 1;
+            gen.broker.tune.2 = 1;
+            gen.broker.heartbeat_every_ns = Some(400_000_000);
+            gen.net.wr_cap = 1 + cs.choose("c01_wr_cap", 40) as usize;
+            let a = 1_000 * (3_000 + cs.choose("c01_stall_at_us", 17_000) as u64);
+            let b = a + 1_200_000_000 + 1_000_000 * cs.choose("c01_stall_ms", 1_500) as u64;
+            stall = Some((a, b));
+            gen.sched.hang_after_ns = gen.sched.hang_after_ns.max(30_000_000_000);
+            gen.sched.step_cap = gen.sched.step_cap.max(4_000_000);
+        }
+        let (res, world) = run_generated(&gen, cs, text, move |_| {
+            if let Some((a, b)) = stall {
+                crate::world::call_in(a, |w| w.set_stall(true));
+                crate::world::call_in(b, |w| w.set_stall(false));
+            }
+        });
         let mut rep = CaseReport::default();
         fill_common(&mut rep, &res, &world);
         rep.sample = plan_summary(&gen);
         rep.count("c01.server_close_sessions", server_close as u64);
+        rep.count("c01.heartbeat_stall_sessions", hb_stall as u64);
         let n = world.net.lock().unwrap();
         let inside = n.stats.short_write_inside_frame + n.stats.would_block_inside_frame;
         rep.nontrivial = !gen.plan.threads.is_empty() && inside > 0;
@@ -154,7 +176,14 @@ impl Scenario for C01 {
         if rep.inconclusive.is_some() {
             return rep;
         }
-        let complete = true;
+        // a connection that ended with an error may have died in the middle of a write
+        // (after a server close the client still writes everything queued and its CloseOk: that stream is whole too)
+        let ended_well = res.hist.conn.iter().any(|c| match c {
+            ConnRec::Close { result: Ok(()), .. } => true,
+            ConnRec::Close { result: Err(e), .. } => e.starts_with("ServerClosedConnection("),
+            _ => false,
+        });
+        let complete = ended_well;
         // when the server closed the connection calls fail at arbitrary points: the per-channel sequence is
         // not defined, the envelope (header + whole, decodable frames) is
         let cut_short = world.broker.sent.iter().any(|s| matches!(s.kind, crate::broker::SentKind::ConnectionClose { .. }));
